@@ -77,6 +77,20 @@ pub fn programs(tier: Tier) -> ProgramSet {
                 }
             }
         }
+        // a variant that is BOTH default and disabled does not exist for the parser: misses still go to the function
+        if e.k <= 1 && e.spec.generics.is_empty() {
+            let mut spec = e.spec.clone();
+            spec.parse_err = true;
+            let mut d = VariantSpec::unit("Dd");
+            d.default = true;
+            d.disabled = true;
+            d.kind = Kind::Tuple(vec![FieldTy::Str]);
+            spec.variants.push(d);
+            if parse_domain(&spec) {
+                let source = render(&spec);
+                out.push(Program { idx: 0, label: format!("{} + variant with default AND disabled [custom error]", e.label), k: e.k + 1, spec, aux: json!(null), source });
+            }
+        }
         // an error type that mentions the enum's own type parameter
         if let Some(tp) = e.spec.generics.iter().find_map(|g| match g {
             Generic::Type { name, .. } => Some(name.clone()),
